@@ -7127,3 +7127,96 @@ func ruleCronStartArms(w *World, r *Report) {
 	}
 	r.ok("CRON-START-ARMS", key, w.Pos(fn.Pos()), "the timer is armed before the loop first waits")
 }
+
+// FMT-CONST (C18): an error text is data, not a format.
+func ruleFmtConst(w *World, r *Report) {
+	r.Rule("FMT-CONST", "no call of fmt.Fprintf / Sprintf / Errorf / Printf in the service package has a format argument that is not a constant: the text of an error (which quotes client data: ids, parameter values, script messages) used as a format turns every `%` in it into a verb — `100%d` reaches the client as `100%!d(MISSING)`, so the error response is not the error the operation reported", 1)
+	n := 0
+	bad := 0
+	for _, fn := range w.Funcs {
+		if w.RelPkg(fn) != "service" || isTestFile(w, fn) {
+			continue
+		}
+		allInstrs(fn, func(in ssa.Instruction) {
+			c := callOf(in)
+			if c == nil {
+				return
+			}
+			o := calleeObj(c)
+			if o == nil || o.Pkg() == nil || o.Pkg().Path() != "fmt" {
+				return
+			}
+			idx := -1
+			switch o.Name() {
+			case "Sprintf", "Errorf", "Printf":
+				idx = 0
+			case "Fprintf":
+				idx = 1
+			}
+			if idx < 0 || idx >= len(c.Args) {
+				return
+			}
+			n++
+			if _, isC := c.Args[idx].(*ssa.Const); !isC {
+				bad++
+				r.violation("FMT-CONST", "fn="+fname(fn), w.PosOf(in), "fmt."+o.Name()+" is given a format that is not a constant")
+			}
+		})
+	}
+	if bad == 0 {
+		r.ok("FMT-CONST", "pkg=service", "", itoa(n)+" formatted-print calls, all with constant formats")
+	}
+}
+
+// URI-PATH-WINS (C18): the operation is the one the request was sent to.
+func ruleURIPathWins(w *World, r *Report) {
+	r.Rule("URI-PATH-WINS", "in service.GetHTTPRequest, outside the two envelope endpoints (which take the operation from the body by design), the entry \"uri\" of the request map is set from the request's path *after* everything that decodes client data into that map: from the map update m[\"uri\"] = r.URL.Path no call that fills the map from the body or the query string (json.Unmarshal, UnmarshalYAML, the query parser) is reachable.  Otherwise a POST to /api/loc/admin/size whose body says \"uri\":\"/api/loc/admin/delete\" deletes the location", 1)
+	fn := w.Func("service", "GetHTTPRequest")
+	key := "fn=" + fname(fn)
+	var sets []ssa.Instruction
+	allInstrs(fn, func(in ssa.Instruction) {
+		mu, ok := in.(*ssa.MapUpdate)
+		if !ok {
+			return
+		}
+		if k, isC := constKey(mu.Key); !isC || k != "uri" {
+			return
+		}
+		if dependsOn(mu.Value, func(v ssa.Value) bool {
+			_, f, _, ok := loadedField(v)
+			return ok && f == "Path"
+		}) {
+			sets = append(sets, in)
+		}
+	})
+	if len(sets) == 0 {
+		r.exempt("URI-PATH-WINS", key, w.Pos(fn.Pos()), "the request map's uri is not set from the request path here: shape not recognised, not decided")
+		return
+	}
+	isFill := func(in ssa.Instruction) bool {
+		c := callOf(in)
+		if c == nil {
+			return false
+		}
+		if o := calleeObj(c); o != nil {
+			if isPkgFunc(o, "encoding/json", "Unmarshal") || o.Name() == "UnmarshalYAML" {
+				return true
+			}
+		}
+		// the query parser: a closure of this function (called through its value)
+		if f := c.StaticCallee(); f != nil && f.Parent() == fn {
+			return true
+		}
+		if _, isClosure := c.Value.(*ssa.MakeClosure); isClosure {
+			return true
+		}
+		return false
+	}
+	for _, s := range sets {
+		if h, _ := reach(fn, s, isFill, nil, nil); h != nil {
+			r.violation("URI-PATH-WINS", key, w.PosOf(s), "client data is decoded into the request map (at "+w.PosOf(h)+") after its uri was set from the path: a `uri` in the body or query string replaces the operation the request was sent to")
+			return
+		}
+	}
+	r.ok("URI-PATH-WINS", key, w.PosOf(sets[0]), "the path is written last")
+}
